@@ -55,6 +55,7 @@ class Ref:
             if a[0] < 0 or a[1] <= 0: return -1, []
             t["drop"], t["period"] = a; return 0, []
         if verb == "FAKE_TRXC_DELAY" and n == 1:
+            if a[0] > 9223372036854: return -1, []      # more than time.sleep() takes (2^63-1 ns): refused since the repair of c14-trxc-delay-overflow
             t["delay"] = a[0]; return 0, []
         if verb == "POWERON" and n == 0:
             if t["run"] or not ((t["rx"] is not None and t["tx"] is not None) or t["fh"] is not None):
